@@ -114,6 +114,9 @@ func remoteNameAddr(name string) (ent string, feat uint) {
 	if name == "nm" {
 		return "0", 0
 	}
+	if name[0] == 'n' { // nested entity [1,1]
+		return "1.1", uint(name[len(name)-1] - '0')
+	}
 	n := len(name)
 	return string(name[n-2]), uint(name[n-1] - '0')
 }
